@@ -1062,10 +1062,10 @@ def chk_history(ctx, case):
 def sub_history(ctx):
     rng = ctx.rng
     cases = []
-    plan = [("state", "q", FLAG_KINDS + ["unnorm", "perm"], nn(ctx, 10, 60)), ("state", "t", FLAG_KINDS, nn(ctx, 4, 30)), ("state", "qq", ["named"], ctx.n(2, 20)), ("state", "tq", ["named"], ctx.n(2, 12)),
-            ("povm", "q", FLAG_KINDS + ["unnorm", "perm"], nn(ctx, 10, 60)), ("povm", "t", FLAG_KINDS, nn(ctx, 4, 30)), ("povm", "qq", ["named"], ctx.n(2, 20)),
-            ("gate", "q", FLAG_KINDS + ["perm"], nn(ctx, 12, 80)), ("gate", "t", FLAG_KINDS, ctx.n(2, 16)),
-            ("mprocess", "q", FLAG_KINDS, nn(ctx, 10, 60)), ("mprocess", "t", ["named"], ctx.n(1, 8))]
+    plan = [("state", "q", FLAG_KINDS + ["unnorm", "perm"], nn(ctx, 8, 60)), ("state", "t", FLAG_KINDS, nn(ctx, 4, 30)), ("state", "qq", ["named"], ctx.n(2, 20)), ("state", "tq", ["named"], ctx.n(2, 12)),
+            ("povm", "q", FLAG_KINDS + ["unnorm", "perm"], nn(ctx, 8, 60)), ("povm", "t", FLAG_KINDS, nn(ctx, 4, 30)), ("povm", "qq", ["named"], ctx.n(2, 20)),
+            ("gate", "q", FLAG_KINDS + ["perm"], nn(ctx, 9, 80)), ("gate", "t", FLAG_KINDS, ctx.n(2, 16)),
+            ("mprocess", "q", FLAG_KINDS, nn(ctx, 8, 60)), ("mprocess", "t", ["named"], ctx.n(1, 8))]
     for t, shape, kinds, n in plan:
         for i in range(n):
             de = float("%.2e" % (10.0 ** rng.uniform(-10, -4))) * rng.choice([1, -1])
